@@ -59,6 +59,9 @@ pub const SYNC_WAKE_POLLING: u32 = 7;
 pub const SYNC_TRY_LOCK: u32 = 8;
 /// Read of a completion queue entry.
 pub const SYNC_READ_CQE: u32 = 9;
+/// An iteration of a loop that waits for the kernel (thread) to change a
+/// kernel shared word; `addr` is the word.
+pub const SYNC_SPIN_WAIT: u32 = 10;
 /// Set for the call made after a store.
 pub const SYNC_AFTER: u32 = 0x100;
 
